@@ -367,6 +367,43 @@ static void op_copybad(const char *text, const char *mode)
 	arena_free(&ar);
 }
 
+static void op_copyud(const char *bitshex, const char *texthex)
+{
+	uint64_t bits = strtoull(bitshex, NULL, 16);
+	double d;
+	size_t n;
+	memcpy(&d, &bits, 8);
+	char *txt = unhexz(texthex, &n); /* caller-managed text */
+	struct json_object *src = json_object_new_double(d), *cpy = NULL;
+	json_object_set_serializer(src, json_object_userdata_to_json_string, txt, NULL);
+	int rc = json_object_deep_copy(src, &cpy, NULL);
+	int equal = 0, indep = 0;
+	if (rc == 0 && cpy)
+	{
+		char *before = strdup(json_object_to_json_string(cpy));
+		equal = !strcmp(before, json_object_to_json_string(src));
+		/* the caller rewrites, then releases, its text and the source */
+		for (size_t i = 0; i < n; i++)
+			if (txt[i] >= '0' && txt[i] <= '8')
+				txt[i]++;
+		json_object_put(src);
+		src = NULL;
+		memset(txt, 'x', n);
+		free(txt);
+		txt = NULL;
+		indep = !strcmp(before, json_object_to_json_string(cpy));
+		free(before);
+		/* the copy's text is a private duplicate with no delete function of its own: release it here */
+		void *own = json_object_get_userdata(cpy);
+		json_object_put(cpy);
+		free(own);
+	}
+	if (src)
+		json_object_put(src);
+	free(txt);
+	printf("copyud rc=%d equal=%d independent=%d\n", rc, equal, indep);
+}
+
 static void op_copymut(int nw, char **w)
 {
 	/* copymut <T> <repr> <side> <destroy> <path> <mutation...> */
@@ -568,6 +605,8 @@ int main(void)
 			op_copy(W[1], W[2]);
 		else if (!strcmp(W[0], "copybad") && NW == 3)
 			op_copybad(W[1], W[2]);
+		else if (!strcmp(W[0], "copyud") && NW == 3)
+			op_copyud(W[1], W[2]);
 		else if (!strcmp(W[0], "copymut") && NW >= 7)
 			op_copymut(NW, W);
 		else
